@@ -17,7 +17,10 @@ Quick == Tier = "quick"
 Inners == {"while", "dowhile", "for", "forin", "forof", "switch", "block", "none"}
 Exits  == {"none", "break", "continue", "break_outer", "continue_outer", "return", "throw", "throw_midexpr", "return_midexpr"}
 Encls  == {"none", "try_catch", "try_finally", "try_catch_finally", "in_catch", "in_finally", "finally_after_throw",
-           "catch_rethrow_finally", "switch", "forin", "forof", "if"}
+           "catch_rethrow_finally", "switch", "forin", "forof", "if",
+           \* a finally block that overrides the pending completion (return value, exception, jump) with a jump of its own
+           "finally_continue", "finally_break", "finally_continue_in_forin", "finally_return"}
+Overriding(e) == e \in {"finally_continue", "finally_break", "finally_continue_in_forin", "finally_return"}
 Places == {"inline", "func_stmt", "func_operand", "func_arg", "func_array", "callback", "getter", "ctor",
            \* the exception leaves the script function that a native (or a call) is running and is caught outside it
            "cb_catch_outside", "getter_catch_outside", "valueof_catch_outside", "call_catch_outside", "sort_catch_outside",
@@ -31,9 +34,11 @@ Valid(b) ==
   /\ (b.exit = "break" => b.inner # "none")                       \* needs something to break out of
   /\ (b.exit = "continue" => TRUE)                                 \* targets the innermost loop (INNER or outer)
   /\ (b.inner = "none" => b.exit \notin {"break"})
+  /\ (b.encl = "finally_return" => b.place \notin {"inline"} /\ ~CatchOutside(b.place))
   /\ (CatchOutside(b.place) => b.exit \in {"throw", "throw_midexpr"} /\ b.encl \in {"none", "try_finally", "forin", "switch", "in_catch", "finally_after_throw"})
 \* quick tier: every inner, exit, enclosure and place occurs, but not the full product
 QuickPick(b) ==
+  \/ Overriding(b.encl) /\ b.inner \in {"forin", "while", "switch", "none"} /\ b.place \in {"inline", "func_operand", "func_array", "callback"}
   \/ b.encl = "none" /\ b.place \in {"inline", "func_operand", "func_array", "func_arg"}
   \/ CatchOutside(b.place) /\ b.inner \in {"forin", "while", "none"}
   \/ b.place = "inline" /\ b.inner \in {"forin", "switch", "while"}
